@@ -5666,12 +5666,13 @@ func (t *Terminal) Loop() error {
 				t.multiLine = !t.multiLine
 				t.clearNumLinesCache()
 				t.forceRerenderList()
-				req(reqList)
+				// Header lines are drawn like the items
+				req(reqList, reqHeader)
 			case actToggleHscroll:
 				// Force re-rendering of the list
 				t.forceRerenderList()
 				t.hscroll = !t.hscroll
-				req(reqList)
+				req(reqList, reqHeader)
 			case actToggleInput, actShowInput, actHideInput:
 				switch a.t {
 				case actToggleInput:
